@@ -146,11 +146,21 @@ pub fn analyze(sc: &StreamScenario, out: &StreamOutcome) -> Analysis {
 
     // which ops are writes, and their expected encodings
     let mut write_expect: BTreeMap<usize, Vec<u8>> = BTreeMap::new();
+    let mut unencodable: std::collections::BTreeSet<usize> = Default::default();
     for (i, op) in sc.ops.iter().enumerate() {
-        if let AppOp::Write(f) | AppOp::Handshake(f) = op {
+        if let AppOp::Write(f) | AppOp::Handshake(f) | AppOp::WriteCancel { frame: f, .. } = op {
             if let (_, Some(p)) = ref_decode_packet(sc.mode, f) {
-                if let Ok(b) = ref_encode(sc.mode, &p) {
-                    let _ = write_expect.insert(i, b);
+                match ref_encode(sc.mode, &p) {
+                    Ok(b) => {
+                        let _ = write_expect.insert(i, b);
+                    },
+                    Err(e) if !e.starts_with("panic") => {
+                        // the encoder refuses this packet: the write must fail and put nothing
+                        // on the wire (expected frame = empty)
+                        let _ = write_expect.insert(i, Vec::new());
+                        let _ = unencodable.insert(i);
+                    },
+                    Err(_) => {},
                 }
             }
         }
@@ -177,6 +187,9 @@ pub fn analyze(sc: &StreamScenario, out: &StreamOutcome) -> Analysis {
     let mut frames_in_last_read: usize;
     let mut wire_broken = false; // after the first outgoing mismatch stop classifying bytes
     let mut min_off = usize::MAX;
+    let mut after_rejection = false;
+    let mut accepted_in_op = 0usize;
+    let mut vio_at_rejection = usize::MAX;
     // accepted by the write half, not yet handed to the peer (buffered link)
     let mut staged = 0usize;
     // keep-alive frame whose reply write failed: the implementation may drop it or deliver it later
@@ -266,6 +279,7 @@ pub fn analyze(sc: &StreamScenario, out: &StreamOutcome) -> Analysis {
                     facts.fault("short_write");
                 }
                 staged += took;
+                accepted_in_op += took;
                 sig.u64(5);
                 sig.u64((*took as u64 + 1).ilog2() as u64);
                 sig.u64((took < off) as u64);
@@ -374,6 +388,7 @@ pub fn analyze(sc: &StreamScenario, out: &StreamOutcome) -> Analysis {
                 sig.u64((*ms + 1).ilog2() as u64);
             },
             Ev::OpStart { op } => {
+                accepted_in_op = 0;
                 cur_op = Some(*op);
                 op_start_now = now;
                 if is_write_op(*op) {
@@ -381,6 +396,28 @@ pub fn analyze(sc: &StreamScenario, out: &StreamOutcome) -> Analysis {
                 }
                 sig.u64(9);
                 sig.u64(is_write_op(*op) as u64);
+            },
+            Ev::OpCancelled { op, .. } if is_write_op(*op) => {
+                // the application abandoned its own write: whatever prefix of the frame got out
+                // stays torn by the application's doing; only a clean abandonment (nothing of the
+                // frame written yet) leaves the outgoing side accountable
+                let e = &write_expect[op];
+                facts.fault("write_cancelled");
+                if sc.buffered && accepted_in_op > 0 {
+                    // bytes accepted by a buffering transport but not yet flushed cannot be
+                    // attributed here; they will legitimately surface later
+                    facts.probe("write_cancelled_with_staged_bytes");
+                    wire_broken = true;
+                } else if a_off > 0 && a_off < e.len() {
+                    facts.probe("write_cancelled_mid_frame");
+                    wire_broken = true;
+                } else if a_off == 0 {
+                    facts.probe("write_cancelled_before_first_byte");
+                } else {
+                    facts.probe("write_cancelled_after_whole_frame");
+                }
+                cur_op = None;
+                sig.u64(15);
             },
             Ev::OpCancelled { op, polls } => {
                 cancelled_ops += 1;
@@ -446,6 +483,14 @@ pub fn analyze(sc: &StreamScenario, out: &StreamOutcome) -> Analysis {
             Ev::OpDone { op, res } => {
                 sig.u64(13);
                 sig.write(res.class().as_bytes());
+                if is_write_op(*op) && unencodable.contains(op) {
+                    facts.probe("unencodable_packet_written");
+                    if matches!(res, AppRes::Done) && !dead {
+                        vio.push(v("write.unencodable_accepted", format!("op {}: write of a packet the encoder refuses returned Ok", op)));
+                    }
+                    cur_op = None;
+                    continue;
+                }
                 if is_write_op(*op) {
                     let e = &write_expect[op];
                     match res {
@@ -469,6 +514,17 @@ pub fn analyze(sc: &StreamScenario, out: &StreamOutcome) -> Analysis {
                         AppRes::Io { kind, .. } => {
                             if !consume_err(&mut injected_w, kind) && !dead {
                                 vio.push(v("write.spurious_error", format!("op {}: write failed with {:?} which the link never injected", op, res)));
+                            } else if kind == "Interrupted" && a_off > 0 && a_off < e.len() && !wire_broken {
+                                // EINTR is the blocking transport's way of saying "not ready, call
+                                // again": giving up with part of the frame on the wire tears it
+                                vio.push(v(
+                                    "write.interrupted_mid_frame",
+                                    format!("op {}: write gave up with Interrupted after {} of {} bytes of the frame were on the wire", op, a_off, e.len()),
+                                ));
+                                wire_broken = true;
+                            } else if a_off > 0 && a_off < e.len() {
+                                // a failed write may leave a prefix behind: the wire is torn by the transport's failure
+                                wire_broken = true;
                             }
                         },
                         AppRes::Timeout => {
@@ -502,7 +558,7 @@ pub fn analyze(sc: &StreamScenario, out: &StreamOutcome) -> Analysis {
                         let got = render_res(res).unwrap();
                         if nf >= model.expects.len() {
                             // maybe the library produced something out of a bad-length frame
-                            let clause = "order.extra_result";
+                            let clause = if matches!(res, AppRes::IncompatibleVersion(_)) { "gate.wrong_decision" } else { "order.extra_result" };
                             vio.push(v(clause, format!("read #{} returned {} but the stream holds only {} complete frames", facts.results.len(), short(&got), model.expects.len())));
                             dead = true;
                         } else {
@@ -540,7 +596,9 @@ pub fn analyze(sc: &StreamScenario, out: &StreamOutcome) -> Analysis {
                                     } else {
                                         "order.wrong_result"
                                     };
-                                    vio.push(v(kind, format!("frame {} (of {}): expected {}, read returned {}", nf, model.expects.len(), short(&want), short(&got))));
+                                    if !after_rejection || kind == "gate.wrong_decision" {
+                                        vio.push(v(kind, format!("frame {} (of {}): expected {}, read returned {}", nf, model.expects.len(), short(&want), short(&got))));
+                                    }
                                     dead = true;
                                 } else {
                                     if let Expect::Pkt { keepalive: true, .. } = exp {
@@ -564,9 +622,15 @@ pub fn analyze(sc: &StreamScenario, out: &StreamOutcome) -> Analysis {
                                     }
                                     if matches!(res, AppRes::IncompatibleVersion(_)) {
                                         facts.probe("ver_rejected");
-                                        // "the connection is lost" (builder docs): nothing is
-                                        // demanded of the session after a correct rejection
-                                        dead = true;
+                                        // "the connection is lost" (builder docs): after a correct
+                                        // rejection only the gate itself is still held to account
+                                        // (no later frame may be answered with a version error
+                                        // unless it is itself a bad VER); everything else is
+                                        // unconstrained
+                                        if !after_rejection {
+                                            vio_at_rejection = vio.len();
+                                        }
+                                        after_rejection = true;
                                         facts.rejected_ver = true;
                                     }
                                     if model.has_ver[nf] && matches!(res, AppRes::Pkt(_)) {
@@ -639,6 +703,15 @@ pub fn analyze(sc: &StreamScenario, out: &StreamOutcome) -> Analysis {
         } else if p_off / 4 != ka_returned {
             vio.push(v("pong.count_at_end", format!("{} keep-alives handed to the caller, {} replies on the wire", ka_returned, p_off / 4)));
         }
+    }
+    if after_rejection && vio_at_rejection < vio.len() {
+        // after a correct rejection only the gate, the outgoing side and panics stay accountable
+        let tail: Vec<Violation> = vio
+            .split_off(vio_at_rejection)
+            .into_iter()
+            .filter(|x| x.clause.starts_with("gate.") || x.clause == "wire.non_pong_during_read" || x.clause == "panic")
+            .collect();
+        vio.extend(tail);
     }
     facts.pong_bytes = p_off;
     facts.wire_broken = wire_broken;
